@@ -433,7 +433,8 @@ class QuotientFilter:
             idx = next_idx
             next_idx = (idx + 1) & self.__mod_size
 
-        while not self._is_cluster_start(next_idx) and not self._is_empty_element(next_idx):
+        # NOTE: next_idx can only come back around to min_idx when the cluster fills the whole table
+        while next_idx != min_idx and not self._is_cluster_start(next_idx) and not self._is_empty_element(next_idx):
             self._filter[idx] = self._filter[next_idx]
             self._is_continuation[idx] = self._is_continuation[next_idx]
             self._is_shifted[idx] = self._is_shifted[next_idx]
@@ -452,7 +453,8 @@ class QuotientFilter:
         # now figure out if things are in the correct place....
         cur_quot = -1
         queue: List[int] = []
-        while min_idx != next_idx:
+        steps = ((next_idx - min_idx) & self.__mod_size) or self._size  # everything, if the cluster filled the table
+        for _ in range(steps):
             if self._is_occupied[min_idx] == 1:
                 queue.append(min_idx)
             if self._is_run_start(min_idx) == 1:
